@@ -483,7 +483,7 @@ theorem findFirst_T : ∀ (l : List Nat) (s : BSt), TInv s →
         refine ⟨TInv_ctxEmpty hs j, fun i h => ?_⟩
         simp only [Option.some.injEq] at h
         subst h
-        have := emptyTh_nil hs j (by rw [← ctxEmpty_snd]; exact he)
+        have := emptyTh_nil hs j (by rw [← ctxEmpty_snd]; simp only [Bool.and_eq_true] at he; exact he.1)
         rw [ctxEmpty_th]
         split
         · exact this
@@ -571,6 +571,34 @@ theorem cleanupLoggers_pres' (P : BSt → Prop) (hAll : ∀ x, P x → P (allEmp
     split
     · exact hfr _ _ hx rfl
     · exact hx
+
+/-- the logger clean-up leaves the configuration and every failure counter alone -/
+theorem cleanupLoggers_fail (s : BSt) :
+    (cleanupLoggers s).cfg = s.cfg ∧ ∀ k, ((cleanupLoggers s).th k).fail = (s.th k).fail := by
+  apply cleanupLoggers_pres' (fun x => x.cfg = s.cfg ∧ ∀ k, (x.th k).fail = (s.th k).fail)
+  · intro x hx
+    unfold allEmpty
+    simp only []
+    apply foldl_pres_pair (fun y => y.cfg = s.cfg ∧ ∀ k, (y.th k).fail = (s.th k).fail)
+      (fun (acc : BSt × Bool) i => ((ctxEmpty acc.1 i).1, acc.2 && (ctxEmpty acc.1 i).2))
+    · intro acc i h
+      refine ⟨h.1, fun k => ?_⟩
+      show ((ctxEmpty acc.1 i).1.th k).fail = _
+      rw [ctxEmpty_th]; split
+      · exact h.2 k
+      · exact h.2 k
+    · show (refreshCache x).cfg = s.cfg ∧ ∀ k, ((refreshCache x).th k).fail = (s.th k).fail
+      unfold refreshCache; split
+      · exact hx
+      · exact hx
+  · intro x y hx h
+    have h1 : (stripL y).cfg = y.cfg := rfl
+    have h2 : ∀ k, (stripL y).th k = y.th k := fun _ => rfl
+    have h3 : (stripL x).cfg = x.cfg := rfl
+    have h4 : ∀ k, (stripL x).th k = x.th k := fun _ => rfl
+    refine ⟨by rw [← h1, h, h3]; exact hx.1, fun k => ?_⟩
+    rw [← h2, h, h4]; exact hx.2 k
+  · exact ⟨rfl, fun _ => rfl⟩
 
 theorem TInv_cleanupLoggers {s : BSt} (hs : TInv s) : TInv (cleanupLoggers s) :=
   cleanupLoggers_pres' TInv (fun _ h => TInv_allEmpty h) (fun x y hx h => TInv_of_tview hx (by
